@@ -30,8 +30,12 @@ unrestricted: any `Int` is reduced to the width (`Field.value`).
                                      output = previous output ++ record bits, output-length += their number
   f32 values: `Field.value` is f32to64 (f64to32 x) — the value reduced to the width; the rounding itself is
   Model/SoftFloat.lean (validated against hardware by the correspondence), not a theorem here.
+
+Every theorem here assumes `s.stackLimit = none`: the round trip is stated for an interpreter without a stack limit
+(a limit can refuse any push, and then the words fail as C06's `read_refused_moves_nothing` / `fail_atomic` say).
 -/
 import XehModel.Proofs.CursorRecordLemmas
+import XehModel.Proofs.CursorLifo
 
 set_option linter.unusedSimpArgs false
 set_option linter.unusedVariables false
@@ -88,12 +92,12 @@ theorem pack_len (fs : List Field) : (packAll fs).length = (fs.map Field.width).
 
 /-- running the fields' pack words left to right (byte-order switches included) leaves pieces whose
     `>bitstr` flattening is exactly `packAll fs`; the data stack is as before plus the result -/
-theorem pack_spec (fs : List Field) (s : CurState) (hok : ∀ f ∈ fs, f.Ok) :
+theorem pack_spec (fs : List Field) (s : CurState) (hok : ∀ f ∈ fs, f.Ok) (hlim : s.stackLimit = none) :
     ∃ be cs, pieces s fs = ({ s with bigEndian := be }, .ok cs) ∧
       run { s with bigEndian := be } [.push (.vec (CellList.ofList cs)), .toBitstr] =
         ({ s with bigEndian := be, ds := .bitstr (packAll fs) :: s.ds }, .ok ()) := by
-  obtain ⟨be, cs, hp, hc⟩ := pieces_spec fs s hok
-  exact ⟨be, cs, hp, toBitstr_vec_eval _ cs _ hc⟩
+  obtain ⟨be, cs, hp, hc⟩ := pieces_spec fs s hok hlim
+  exact ⟨be, cs, hp, toBitstr_vec_eval _ cs _ hc hlim⟩
 
 /-- `>bitstr` ignores nesting: wrapping any run of pieces into a nested vector yields the same bits -/
 theorem toBitstr_nested (a b c : List Cell) (x y z : List Bool)
@@ -109,9 +113,9 @@ theorem toBitstr_nested (a b c : List Cell) (x y z : List Bool)
 
 /-- `a b bitstr-append` puts the top operand FIRST: the result is `b ++ a` -/
 theorem bitstr_append_spec (s : CurState) (a b : List Bool) (t : List Cell)
-    (hds : s.ds = .bitstr b :: .bitstr a :: t) :
+    (hds : s.ds = .bitstr b :: .bitstr a :: t) (hlim : s.stackLimit = none) :
     step s .bitstrAppend = ({ s with ds := .bitstr (b ++ a) :: t }, .ok ()) := by
-  simp [step, popBitstr, popCell, lift, hds, Cell.toBitstr, Cell.value, pushC]
+  simp [step, popBitstr, popCell, lift, hds, Cell.toBitstr, Cell.value, pushC, full, hlim]
 
 /-! ### parse ∘ pack = id -/
 
@@ -119,7 +123,7 @@ theorem bitstr_append_spec (s : CurState) (a b : List Bool) (t : List Cell)
     fails, the values come back in order on top of the old stack, the offset is at the end
     (remain = 0), and the previously open input is suspended on the stash. -/
 theorem pack_parse_inverse (fs : List Field) (s : CurState) (base : Nat) (hok : RecOk fs)
-    (hbuf : base + (packAll fs).length ≤ usizeMaxN) :
+    (hbuf : base + (packAll fs).length ≤ usizeMaxN) (hlim : s.stackLimit = none) :
     ∃ be s', run s ([.push (.bitstr (packAll fs)), .openBitstr base] ++ parseAll fs) = (s', .ok ()) ∧
       s'.ds = (fs.map Field.value).reverse ++ s.ds ∧
       s'.input = packAll fs ∧ s'.pos = (packAll fs).length ∧ remainOf s' = 0 ∧
@@ -127,12 +131,26 @@ theorem pack_parse_inverse (fs : List Field) (s : CurState) (base : Nat) (hok : 
       s'.stash = ⟨s.input, s.base, s.pos⟩ :: s.stash ∧ s'.bigEndian = be := by
   have hopen : run s [.push (.bitstr (packAll fs)), .openBitstr base] =
       ({ s with input := packAll fs, base := base, pos := 0, stash := ⟨s.input, s.base, s.pos⟩ :: s.stash }, .ok ()) := by
-    simp [run, step, pushC, popBitstr, popCell, lift, Cell.toBitstr, Cell.value]
+    simp [run, step, pushC, full, hlim, popBitstr, popCell, lift, Cell.toBitstr, Cell.value]
   obtain ⟨be, hrun⟩ := parse_all fs
     { s with input := packAll fs, base := base, pos := 0, stash := ⟨s.input, s.base, s.pos⟩ :: s.stash }
-    hok (Nat.zero_le _) (by simp) hbuf
+    hok (Nat.zero_le _) (by simp) hbuf hlim
   refine ⟨be, _, (run_append_ok hopen).trans hrun, ?_⟩
-  simp [remainOf, step, pushC]
+  simp [remainOf, step, pushC, full, hlim]
+
+/-! ### "in the same byte order" -/
+
+/-- the byte order is a setting of the interpreter, not of the input: no word but `big` and `little` changes it —
+    opening an input (`open-bitstr`, `set_binary_input`), closing one, reading, seeking, packing, emitting, a failing
+    word, a change of the stack limit: after any history the order in force is the one the last `big` / `little`
+    selected (seeded change C07/12 reset it when an input was opened) -/
+theorem byte_order_changes_only_by_big_little (s : CurState) (ops : List POp)
+    (h : ∀ op ∈ ops, op ≠ .big ∧ op ≠ .little) : (runAll s ops).bigEndian = s.bigEndian := by
+  induction ops generalizing s with
+  | nil => rfl
+  | cons op ops ih =>
+    rw [runAll_cons, ih _ (fun o ho => h o (List.mem_cons_of_mem _ ho))]
+    exact byteorder_step s op (h op List.mem_cons_self).1 (h op List.mem_cons_self).2
 
 /-! ### emit -/
 
@@ -141,7 +159,7 @@ theorem pack_parse_inverse (fs : List Field) (s : CurState) (base : Nat) (hok : 
     number to `output-length`; nothing else changes except the byte-order variable -/
 theorem emit_concat (fs : List Field) (sizes : List Nat) (s : CurState) (o : List Bool)
     (hok : ∀ f ∈ fs, f.Ok) (ho : s.output = some o)
-    (hlen : s.outputLen + (packAll fs).length ≤ usizeMaxN) :
+    (hlen : s.outputLen + (packAll fs).length ≤ usizeMaxN) (hlim : s.stackLimit = none) :
     ∃ be, emitGroups s (splitBy sizes fs) =
       ({ s with bigEndian := be, output := some (o ++ packAll fs), outputLen := s.outputLen + (packAll fs).length }, .ok ()) := by
   have hflat := splitBy_flatten sizes fs
@@ -150,14 +168,14 @@ theorem emit_concat (fs : List Field) (sizes : List Nat) (s : CurState) (o : Lis
     apply hok
     rw [← hflat]
     exact List.mem_flatten.mpr ⟨g, hg, hf⟩
-  have := emitGroups_spec (splitBy sizes fs) s o hok' ho (by rw [hflat]; exact hlen)
+  have := emitGroups_spec (splitBy sizes fs) s o hok' ho (by rw [hflat]; exact hlen) hlim
   rw [hflat] at this
   exact this
 
 /-- `output` / `output-length` then read back exactly that -/
-theorem output_words (s : CurState) (o : List Bool) (ho : s.output = some o) :
+theorem output_words (s : CurState) (o : List Bool) (ho : s.output = some o) (hlim : s.stackLimit = none) :
     runAll s [.output, .outputLength] = { s with ds := .int s.outputLen :: .bitstr o :: s.ds } := by
-  simp [runAll, step, pushC, ho]
+  simp [runAll, step, pushC, full, hlim, ho]
 
 /-! ### the hypotheses are satisfiable -/
 
